@@ -42,6 +42,12 @@ Theorem C16_recover_complete : forall rs ops s acks rs' t,
   fst (recover (reopen s rs') t) = view (spec (acked ops acks)) t.
 Proof. exact recover_after_run. Qed.
 
+(* the same from ANY state, in particular from the state a crashed-and-reopened process finds:
+   histories with several crashes compose *)
+Theorem C16_from_any_state : forall ops s s' acks, run s ops = (s', acks) ->
+  disk s' = fold_left effect (acked ops acks) (disk s) /\ length acks = length ops.
+Proof. exact run_disk. Qed.
+
 (* a refused operation (quota, unknown tenant) leaves the disk alone; an acknowledged one has
    exactly its effect *)
 Theorem C16_ack_iff_effect : forall s o s' a, run_op s o = (s', a) ->
@@ -89,6 +95,7 @@ Print Assumptions C16_crash.
 Print Assumptions C16_recover.
 Print Assumptions C16_inflight_atomic.
 Print Assumptions C16_recover_complete.
+Print Assumptions C16_from_any_state.
 Print Assumptions C16_ack_iff_effect.
 Print Assumptions C16_log_matches_acks.
 Print Assumptions C16_original_loses_update.
